@@ -178,6 +178,9 @@ pub struct ExecReq {
     /// default: a fresh thread per step
     #[serde(default)]
     pub same_thread: bool,
+    /// CPU allowance per step in seconds (None: 10)
+    #[serde(default)]
+    pub cpu_limit_s: Option<u64>,
     pub steps: Vec<Step>,
 }
 
